@@ -260,3 +260,16 @@ func init() {
 		return true
 	})
 }
+
+// net.Dial / net.DialTimeout: connections to the modelled upstream (vp.ModelDial)
+func init() {
+	dial := func(e *Engine, st *State, c *callCtx) bool {
+		if _, ok := st.ghost["upstream"]; !ok {
+			unsup("net.Dial without a modelled upstream (vp.UpstreamListen)")
+		}
+		e.res.Assumptions["net.Dial/DialTimeout connect to the modelled upstream (records writes, stays open until closed)"]++
+		return e.invoke(st, FuncVal{Fn: e.vpFunc("ModelDial")}, []Value{c.args[0], c.args[1]}, c.site, c.ret)
+	}
+	reg("net.Dial", dial)
+	reg("net.DialTimeout", dial)
+}
